@@ -9,6 +9,7 @@ import argparse
 import importlib
 import json
 import os
+import re
 import sys
 import time
 import traceback
@@ -91,13 +92,44 @@ class Report:
         return value
 
 
+class ReviewedTable(dict):
+    """reviewed entries by key. A key names one function and one construct in it; when that function has been moved to another
+    module (same name, same construct, different definition path) the entry still applies: look-ups fall back to the key with
+    the lower-case module segments of its paths removed."""
+    @staticmethod
+    def norm(key):
+        return re.sub(r'(?<![A-Za-z0-9_:>])(?:[a-z_][a-z0-9_]*::)+(?=[A-Za-z_<{@])', '', key)
+
+    def __init__(self, entries):
+        super().__init__(entries)
+        self._by_norm = {}
+        for k, v in entries.items():
+            self._by_norm.setdefault(self.norm(k), []).append(k)
+
+    def _resolve(self, key):
+        if dict.__contains__(self, key):
+            return key
+        c = self._by_norm.get(self.norm(key), [])
+        return c[0] if len(c) == 1 else None
+
+    def __contains__(self, key):
+        return self._resolve(key) is not None
+
+    def __getitem__(self, key):
+        return dict.__getitem__(self, self._resolve(key))
+
+    def get(self, key, default=None):
+        k = self._resolve(key)
+        return dict.__getitem__(self, k) if k is not None else default
+
+
 def load_reviewed(name):
     p = os.path.join(VERIF, 'rules', name)
     if not os.path.exists(p):
-        return {}
+        return ReviewedTable({})
     with open(p) as f:
         data = json.load(f)
-    return {e['key']: e for e in data['entries']}
+    return ReviewedTable({e['key']: e for e in data['entries']})
 
 
 def load_known():
